@@ -372,6 +372,7 @@ pub fn build_catalogue() -> Vec<Subject> {
         [u8; 0] [mem]; [u8; 4] [mem, twin("[Wu8; 4]")]; [u8; 32] [mem]; [u16; 7] [mem, twin("[Wu16; 7]")]; [u32; 5] [mem, twin("[Wu32; 5]")];
         [u128; 3] [mem, twin("[Wu128; 3]")]; [i64; 9] [mem, twin("[Wi64; 9]")]; [f64; 4] [mem, twin("[Wf64; 4]")];
         [Wu8; 4] [mem]; [Wu16; 7] [mem]; [Wu32; 5] [mem]; [Wu128; 3] [mem]; [Wi64; 9] [mem]; [Wf64; 4] [mem];
+        [Duration; 2] [mem]; [OptionBool; 3] [mem]; [NonZeroU16; 2] [mem]; [Compact<u32>; 2] [mem]; [(u8, bool); 2] [mem]; [[bool; 2]; 2] [mem]; [Option<u8>; 3] [mem]; Option<Duration> [mem]; (Duration, u8) [mem];
         [bool; 3] [mem]; [String; 2] [mem]; [[u8; 3]; 2] [mem]; [Vec<u8>; 2] [mem]; [u8; 20000] [mem, heavy]; [(); 5] [mem];
         // other sequences
         Vec<bool> [mem, len]; Vec<()> [mem, len]; Vec<String> [mem, len]; Vec<Vec<u8>> [mem, len]; Vec<Option<u16>> [mem, len]; Vec<(u8, u32)> [mem, len];
@@ -391,6 +392,8 @@ pub fn build_catalogue() -> Vec<Subject> {
         SingleCompact [mem]; SingleWithSkip [mem]; WithEncodedAs [mem]; UsesCa [mem]; Tr1 [mem]; Tr2 [mem]; Tr3 [mem]; Tr4 [mem];
         EnumData [mem]; EnumIdx [mem]; EnumDisc [mem]; EnumSkip [mem]; GenericE<u32> [mem]; GenericE<Vec<u8>> [mem];
         Tree [mem]; Chain [mem];
+        TrC [mem]; TrE [mem]; TrS [mem]; Box<TrC> [mem]; [TrC; 3] [mem]; Rc<TrC> [mem]; Box<TrE> [mem]; Arc<[TrE; 2]> [mem]; [TrS; 2] [mem]; Box<TrS> [mem];
+        Arc<[Tr1; 2]> [mem]; Box<Tr3> [mem]; Box<[Tr4; 2]> [mem]; Box<WithCompact> [mem]; [SingleCompact; 2] [mem]; Box<UsesCa> [mem]; [EnumSkip; 2] [mem]; Box<EnumData> [mem];
         // nestings
         Vec<EnumData> [mem, len]; Option<Box<StructNamed>> [mem]; BTreeMap<u16, EnumIdx> [mem, len]; (Vec<u8>, Vec<u16>) [mem, len];
         Vec<Vec<Vec<u32>>> [mem, len]; Vec<Tree> [mem, len]; Box<Tr2> [mem]; Vec<Tr1> [mem, len]; LinkedList<Vec<u16>> [mem, len];
